@@ -64,6 +64,16 @@ def _anchor(arg):
     return m.group(1)
 
 
+def _add_marker_props(it, s):
+    """`mprops=C14,C16` on a @@fn / @@lift line: the function counts for these properties only through contract clauses that
+    are explicitly marked with them (`clause /*props:C14*/`); its other obligations never raise an alarm for them"""
+    mp = [x for x in (s.opt('mprops') or '').split(',') if x]
+    for x in mp:
+        if x not in it.props:
+            it.props.append(x)
+    it.marker_props = set(mp)
+
+
 class Item:
     """one emitted chunk of the unit file"""
     def __init__(self, label, kind, text, props=(), origin=None, trusted=False, mode='exec', notes=None,
@@ -72,6 +82,7 @@ class Item:
         self.kind = kind          # raw | type | fn | macro | const
         self.text = text
         self.props = list(props)
+        self.marker_props = set()     # properties this item carries only through clauses explicitly marked /*props:..*/
         self.origin = origin      # span.describe() or None
         self.trusted = trusted
         self.notes = notes
@@ -402,6 +413,7 @@ class Unit:
         else:
             body = txt
         it = Item(qual, 'fn', body, props=props, origin=sp.describe(), notes=notes, src_text=sp.text)
+        _add_marker_props(it, s)
         it.rewritten = rewritten
         it.has_contract = has_contract
         it.verus_name = '%s::%s' % (self.crate_name, qual)
@@ -515,6 +527,7 @@ class Unit:
         props = (s.opt('props') or '').split(',') if s.opt('props') else []
         desc = sp.describe()
         it = Item(name, 'fn', fn_txt, props=props, origin=desc, notes=notes, src_text=sp.text)
+        _add_marker_props(it, s)
         it.rewritten = rewritten
         it.has_contract = has_contract
         it.verus_name = '%s::%s' % (self.crate_name, name)
